@@ -81,6 +81,16 @@ type vCtrTrack struct {
 	// there was a moment with state=Locked and priority>0 since the previous
 	// crunch-run --detach for this container arrived (or since the beginning)
 	lockedSince bool
+	// Weaker pair for the same period, used together: the container was seen
+	// Locked, and its priority was seen >0, but not necessarily at the same
+	// moment. test.Queue's Lock() does not refresh the cached priority the
+	// way the real container.Queue does (from the lock response), so a
+	// priority that drops to 0 while the lock call is in flight is invisible
+	// to the scheduler until the next Update(): starting such a container is
+	// an artefact of the stub, not of the code under test (lead, after a
+	// thorough-tier false alarm).
+	lockSeen    bool
+	prioPosSeen bool
 	detaches    int
 	starts      int // detaches answered with exit status 0
 	kills       int
@@ -522,9 +532,11 @@ func (m *vMonitor) detach(info *vVMInfo, gen int, inner test.SSHExecFunc, env ma
 	tr := m.ctrs[uuid]
 	hadLocked := false
 	if tr != nil {
-		hadLocked = tr.lockedSince || (st == "Locked" && prio > 0)
+		hadLocked = tr.lockedSince || (st == "Locked" && prio > 0) || ((tr.lockSeen || st == "Locked") && (tr.prioPosSeen || prio > 0))
 		// period for the next detach starts now
 		tr.lockedSince = st == "Locked" && prio > 0
+		tr.lockSeen = st == "Locked"
+		tr.prioPosSeen = prio > 0
 		tr.detaches++
 	}
 	m.detachTotal++
@@ -727,6 +739,9 @@ func (vq *vQueue) write(op, uuid string, f func(string) error) error {
 	if tr := m.ctrs[uuid]; tr != nil && err == nil && st == "Locked" && prio > 0 {
 		tr.lockedSince = true
 	}
+	if tr := m.ctrs[uuid]; tr != nil && err == nil && st == "Locked" {
+		tr.lockSeen = true
+	}
 	m.mu.Unlock()
 	return err
 }
@@ -768,6 +783,9 @@ func (m *vMonitor) apiPriority(uuid string, prio int64) {
 	m.ev(m.curGen, "api-prio", "", uuid, fmt.Sprintf("prio=%d ok=%v state=%s", prio, ok, st))
 	if tr := m.ctrs[uuid]; tr != nil && ok && prio > 0 && st == "Locked" {
 		tr.lockedSince = true
+	}
+	if tr := m.ctrs[uuid]; tr != nil && ok && prio > 0 {
+		tr.prioPosSeen = true
 	}
 	m.mu.Unlock()
 }
